@@ -320,6 +320,18 @@ class ParseContext:
 
     return _INVERSE_REGISTRY[fn_or_cls]
 
+  def is_known(self, selector):
+    """Whether `selector` names a configurable this context can provide."""
+    if self._dynamic_registration:
+      # With dynamic registration, configurables are registered on first use, so
+      # "known" means resolvable through this file's imports.
+      try:
+        self._resolve_selector(selector)
+      except (NameError, AttributeError):
+        return False
+      return True
+    return bool(_REGISTRY.matching_selectors(selector))
+
   def get_configurable(self, selector):
     """Get a configurable matching the given `selector`."""
     if self._dynamic_registration:
@@ -845,7 +857,7 @@ def _validate_skip_unknown(skip_unknown):
 def _should_skip(selector, skip_unknown):
   """Checks whether `selector` should be skipped (if unknown)."""
   _validate_skip_unknown(skip_unknown)
-  if _REGISTRY.matching_selectors(selector):
+  if _parse_context().is_known(selector):
     return False  # Never skip known configurables.
   if isinstance(skip_unknown, (list, tuple, set)):
     return selector in skip_unknown
